@@ -1,4 +1,7 @@
 import TwistedModel.Ssh.KeyBlob
+import TwistedModel.Ssh.PrivKey
+import TwistedModel.Ssh.Lsh
+import TwistedModel.Ssh.OpenSSHv1
 /-!
 Driver glue for C37.  Bytes as hex (`-` = empty), integers in decimal.
   `C37 NS <hex>`            → hex
@@ -8,9 +11,26 @@ Driver glue for C37.  Bytes as hex (`-` = empty), integers in decimal.
   `C37 blob rsa <e> <n>` | `blob dsa <p> <q> <g> <y>` | `blob ec <curve-hex> <point-hex>` | `blob ed <hex>` → hex
   `C37 fromBlob <hex>`      → `rsa e n` | `dsa p q g y` | `ec <curve> <point>` | `ed <a>`
 errors: `!raised error` (struct.error), `!raised AssertionError`, `!raised BadKeyError`
+
+private layouts — `<key>` is `rsa n e d p q` | `dsa p q g y x` | `ec <curve> <point> <priv>` | `ed <a> <k>`;
+`<fields>` is `rsa n e d p q` | `dsa p q g y x` | `ec <curve> <priv>` | `ed <k>`:
+  `C37 privBlob <key> <iqmp>` → hex            `C37 fromPrivBlob <hex>` → `<fields>`
+  `C37 agent <key> <u>` → hex                  `C37 fromAgent <hex>` → `<fields>`      (`!raised UnboundLocalError`)
+  `C37 sexpPack <sexp>` → hex                  `C37 sexpParse <hex>` → `<sexp>`        (`!raised IndexError`)
+      `<sexp>` = `(item,item,…)`, item = hex | `-` | `<sexp>`; the outer list is the sequence given to `pack`
+  `C37 lshPub <pub>` → hex (the S-expression)  `C37 fromLshPub <hex>` → `rsa e n` | `dsa p q g y`
+  `C37 lshPriv <key> <iqmp>` → hex             `C37 fromLshPriv <hex>` → `<fields>`
+      (`!raised KeyError`, `!raised ZeroDivisionError`, `!raised shape` = TypeError or ValueError)
+  `C37 v1sec <key> <iqmp> <comment> <check> <blockSize>` → hex of the plaintext private section
+  `C37 v1write <key> <iqmp> <comment> <pass> <salt> <check> <T>` → hex of the container
+  `C37 v1read <container> <pass> <T>` → `<fields>`   (`!raised EncryptedKeyError`)
+      `<T>` = `<kp> <ks> <klen> <krounds> <kout> <ck> <civ> <cin> <cout>`: the ONE call of `bcrypt.kdf` and the ONE
+      cipher `update` the real code made (recorded by the harness); the model's cipher is that table —
+      any other argument gives an empty result, so a model that calls them differently disagrees.
 -/
 namespace Twisted.Drv.C37
-open Twisted.Py Twisted.Ssh.Wire Twisted.Ssh.KeyBlob
+open Twisted.Py Twisted.Ssh.Wire Twisted.Ssh.KeyBlob Twisted.Ssh.PrivKey Twisted.Ssh.Sexpy Twisted.Ssh.Lsh
+  Twisted.Ssh.OpenSSHv1
 
 def showErr : Err → String
   | .struct => "!raised error"
@@ -19,6 +39,175 @@ def showErr : Err → String
 def showB : Except Err Bytes → String
   | .ok b => hex b
   | .error e => showErr e
+
+def showPErr : ParseErr → String
+  | .wire e => showErr e
+  | .badKey => "!raised BadKeyError"
+
+def showFields : PrivFields → String
+  | .rsa n e d p q => s!"rsa {n} {e} {d} {p} {q}"
+  | .dsa p q g y x => s!"dsa {p} {q} {g} {y} {x}"
+  | .ec c pv => s!"ec {hex c} {pv}"
+  | .ed25519 k => s!"ed {hex k}"
+
+def showLshErr : LshErr → String
+  | .wire e => showErr e
+  | .sexp .assertion => "!raised AssertionError"
+  | .sexp .index => "!raised IndexError"
+  | .badKey => "!raised BadKeyError"
+  | .zeroDiv => "!raised ZeroDivisionError"
+  | .assertion => "!raised AssertionError"
+  | .index => "!raised IndexError"
+  | .key => "!raised KeyError"
+  | .shape => "!raised shape"
+
+def showV1Err : V1Err → String
+  | .wire e => showErr e
+  | .badKey => "!raised BadKeyError"
+  | .encrypted => "!raised EncryptedKeyError"
+
+/-- `<key>` tokens → key and the remaining tokens -/
+def parseKey : List String → Option (PrivKey × List String)
+  | "rsa" :: n :: e :: d :: p :: q :: rest => do
+      pure (.rsa (← n.toNat?) (← e.toNat?) (← d.toNat?) (← p.toNat?) (← q.toNat?), rest)
+  | "dsa" :: p :: q :: g :: y :: x :: rest => do
+      pure (.dsa (← p.toNat?) (← q.toNat?) (← g.toNat?) (← y.toNat?) (← x.toNat?), rest)
+  | "ec" :: c :: pt :: pv :: rest => do pure (.ec (← unhex c) (← unhex pt) (← pv.toNat?), rest)
+  | "ed" :: a :: k :: rest => do pure (.ed25519 (← unhex a) (← unhex k), rest)
+  | _ => none
+
+def parsePub : List String → Option PubKey
+  | ["rsa", e, n] => do pure (.rsa (← e.toNat?) (← n.toNat?))
+  | ["dsa", p, q, g, y] => do pure (.dsa (← p.toNat?) (← q.toNat?) (← g.toNat?) (← y.toNat?))
+  | ["ec", c, pt] => do pure (.ec (← unhex c) (← unhex pt))
+  | ["ed", a] => do pure (.ed25519 (← unhex a))
+  | _ => none
+
+/-! S-expression transport: `(6162,(63),-)` -/
+mutual
+  def showSexp : Sexp → String
+    | .atom b => hex b
+    | .list xs => "(" ++ showSexps xs ++ ")"
+  def showSexps : List Sexp → String
+    | [] => ""
+    | [x] => showSexp x
+    | x :: y :: r => showSexp x ++ "," ++ showSexps (y :: r)
+end
+
+/-- one item, then the rest of the text; `fuel` bounds the nesting + length -/
+def readItems : Nat → List Char → List Sexp → Option (List Sexp × List Char)
+  | 0, _, _ => none
+  | fuel + 1, cs, acc =>
+    match cs with
+    | ')' :: rest => some (acc, rest)
+    | ',' :: rest => readItems fuel rest acc
+    | '(' :: rest =>
+        match readItems fuel rest [] with
+        | some (inner, rest') => readItems fuel rest' (acc ++ [.list inner])
+        | none => none
+    | _ =>
+        let tok := cs.takeWhile fun c => c ≠ ',' ∧ c ≠ ')' ∧ c ≠ '('
+        if tok.isEmpty then none
+        else match unhex (String.ofList tok) with
+          | some b => readItems fuel (cs.drop tok.length) (acc ++ [.atom b])
+          | none => none
+
+def readSexpSeq (s : String) : Option (List Sexp) :=
+  match s.toList with
+  | '(' :: rest =>
+      match readItems (rest.length + 1) rest [] with
+      | some (xs, []) => some xs
+      | _ => none
+  | _ => none
+
+/-- the recorded-call cipher of `v1write` / `v1read` -/
+def tableCipher (kp ks : Bytes) (kl kr : Nat) (kout ck civ cin cout : Bytes) : CipherOps :=
+  { kdf := fun p s l r => if p = kp ∧ s = ks ∧ l = kl ∧ r = kr then kout else []
+    encrypt := fun k iv x => if k = ck ∧ iv = civ ∧ x = cin then cout else []
+    decrypt := fun k iv x => if k = ck ∧ iv = civ ∧ x = cin then cout else [] }
+
+def parseTable : List String → Option CipherOps
+  | [kp, ks, kl, kr, kout, ck, civ, cin, cout] => do
+      pure (tableCipher (← unhex kp) (← unhex ks) (← kl.toNat?) (← kr.toNat?) (← unhex kout)
+        (← unhex ck) (← unhex civ) (← unhex cin) (← unhex cout))
+  | _ => none
+
+def showFieldsP : Except ParseErr PrivFields → String
+  | .ok f => showFields f
+  | .error e => showPErr e
+
+def handlePriv (args : List String) : String :=
+  match args with
+  | "privBlob" :: rest => match parseKey rest with
+    | some (k, [u]) => match u.toNat? with
+      | some u => showB (privateBlob k u)
+      | none => "bad-op"
+    | _ => "bad-op"
+  | ["fromPrivBlob", h] => match unhex h with
+    | some b => showFieldsP (parsePrivateBlob b)
+    | none => "bad-op"
+  | "agent" :: rest => match parseKey rest with
+    | some (k, [u]) => match u.toNat? with
+      | some u => match toAgentV3 k u with
+        | .ok b => hex b
+        | .error (.wire e) => showErr e
+        | .error .unbound => "!raised UnboundLocalError"
+      | none => "bad-op"
+    | _ => "bad-op"
+  | ["fromAgent", h] => match unhex h with
+    | some b => showFieldsP (parseAgentV3 b)
+    | none => "bad-op"
+  | ["sexpPack", t] => match readSexpSeq t with
+    | some xs => hex (packList xs)
+    | none => "bad-op"
+  | ["sexpParse", h] => match unhex h with
+    | some b => match parse b with
+      | .ok xs => "(" ++ showSexps xs ++ ")"
+      | .error .assertion => "!raised AssertionError"
+      | .error .index => "!raised IndexError"
+    | none => "bad-op"
+  | "lshPub" :: rest => match parsePub rest with
+    | some k => match toLshPublic k with
+      | .ok b => hex b
+      | .error e => showLshErr e
+    | none => "bad-op"
+  | ["fromLshPub", h] => match unhex h with
+    | some b => match fromLshPublic b with
+      | .ok (.rsa e n) => s!"rsa {e} {n}"
+      | .ok (.dsa p q g y) => s!"dsa {p} {q} {g} {y}"
+      | .ok _ => "bad-op"
+      | .error e => showLshErr e
+    | none => "bad-op"
+  | "lshPriv" :: rest => match parseKey rest with
+    | some (k, [u]) => match u.toNat? with
+      | some u => match toLshPrivate k u with
+        | .ok b => hex b
+        | .error e => showLshErr e
+      | none => "bad-op"
+    | _ => "bad-op"
+  | ["fromLshPriv", h] => match unhex h with
+    | some b => match parseLshPrivate b with
+      | .ok f => showFields f
+      | .error e => showLshErr e
+    | none => "bad-op"
+  | "v1sec" :: rest => match parseKey rest with
+    | some (k, [u, comment, check, bs]) => match u.toNat?, unhex comment, unhex check, bs.toNat? with
+      | some u, some comment, some check, some bs => showB (privSection k u comment check bs)
+      | _, _, _, _ => "bad-op"
+    | _ => "bad-op"
+  | "v1write" :: rest => match parseKey rest with
+    | some (k, u :: comment :: pass :: salt :: check :: table) =>
+      match u.toNat?, unhex comment, unhex pass, unhex salt, unhex check, parseTable table with
+      | some u, some comment, some pass, some salt, some check, some C =>
+          showB (toOpenSSHv1 C k u comment pass salt check)
+      | _, _, _, _, _, _ => "bad-op"
+    | _ => "bad-op"
+  | "v1read" :: c :: pass :: table => match unhex c, unhex pass, parseTable table with
+    | some c, some pass, some C => match parseOpenSSHv1 C c pass with
+      | .ok f => showFields f
+      | .error e => showV1Err e
+    | _, _, _ => "bad-op"
+  | _ => "bad-op"
 
 def handle (args : List String) : String :=
   match args with
@@ -59,6 +248,6 @@ def handle (args : List String) : String :=
       | .error (.wire e) => showErr e
       | .error .badKey => "!raised BadKeyError"
     | none => "bad-op"
-  | _ => "bad-op"
+  | _ => handlePriv args
 
 end Twisted.Drv.C37
